@@ -1143,16 +1143,55 @@ def judge_derived(out, tag, kname, route, srcus, v, resu, ro_res, need):
 
 
 # ------------------------------------------------------------------ the plan of cases
+ALL_MUTS = ["atom_field", "atom_attrib", "attrib", "bond_field", "bond_attrib", "coord", "coords_assign", "charge",
+            "weight", "scal", "del_atom", "add_h", "label_atoms"]
+
+
 def plan(ctx):
-    rng = ctx.rng
-    triples = []
-    per = 6 if not ctx.thorough else 40
-    for kname in SOURCES:
-        for route in single_routes(kname):
-            triples += [(kname, route)] * per
-    for kname, route in MULTI:
-        triples += [(kname, route)] * (per * 2)
-    return triples
+    """Every (source class, route) x mutated side x mutation of the menu (a mutation that does not apply to the
+    object is replaced by a random applicable one)."""
+    reps = 1 if not ctx.thorough else 6
+    quads = []
+    for kname, route in [(k, r) for k in SOURCES for r in single_routes(k)] + MULTI:
+        for side in ("copy", "source"):
+            for mut in ALL_MUTS:
+                quads += [(kname, route, side, mut)] * reps
+    return quads
+
+
+def lone_oracle(ml, rng, rep):
+    """Atom / Bond copied on their own (evolve, pickle, deepcopy): oracle only."""
+    for kind in ("Atom", "Bond"):
+        for rname, f in (("evolve", lambda x: x.evolve()), ("pickle", lambda x: pickle.loads(pickle.dumps(x))),
+                         ("deepcopy", _copy.deepcopy)):
+            for side in ("copy", "source"):
+                m = make_source(ml, rng, "Molecule", n=3, rich=True)
+                x = m.atoms[rng.randrange(3)] if kind == "Atom" else m.bonds[0]
+                fields = ATOM_FIELDS if kind == "Atom" else BOND_FIELDS
+
+                def snap(z):
+                    d = {"fields": [leaf_key(getattr(z, f)) for f in fields], "attrib": [(leaf_key(k), leaf_key(v)) for k, v in z.attrib.items()]}
+                    if kind == "Bond":
+                        d["ends"] = [([leaf_key(getattr(e, f)) for f in ATOM_FIELDS], [(leaf_key(k), leaf_key(v)) for k, v in e.attrib.items()])
+                                     for e in (z.a1, z.a2)]
+                    return d
+                y = f(x)
+                tag = f"C06:{kind}:{rname}"
+                rep.case(key=(kind, rname, side))
+                if snap(y) != snap(x):
+                    rep.violate(tag + ":differs", f"{rname} of a lone {kind}: the copy differs from the source", {"lone": kind, "route": rname})
+                if y.attrib is x.attrib:
+                    rep.violate(tag + ":shares-attrib", f"{rname} of a lone {kind}: the copy shares the attrib dict", {"lone": kind, "route": rname})
+                a, b = (y, x) if side == "copy" else (x, y)
+                before = snap(b)
+                a.attrib["zz"] = 1
+                a.label = "changed"
+                if kind == "Bond" and rname != "evolve":          # an evolved bond keeps the same end atoms by design
+                    a.a1.label = "end-changed"
+                    a.a2.attrib["ee"] = 2
+                if snap(b) != before:
+                    rep.violate(tag + f":leak:{side}", f"after {rname} of a lone {kind}, editing the {side} changed the other object",
+                                {"lone": kind, "route": rname})
 
 
 def _quiet():
@@ -1185,13 +1224,13 @@ def run(ctx, rep):
     tabulated = {(k, r) for k, r, _ in rows}
     cases, meta, found = [], [], False
     known_hit = set()
-    for kname, route in plan(ctx):
+    lone_oracle(ml, random.Random(ctx.rng.randrange(1 << 30)), rep)
+    for kname, route, side, mut in plan(ctx):
         if (kname, route) not in tabulated:
             continue
         seed = ctx.rng.randrange(1 << 30)
-        side = ctx.rng.choice(["copy", "source"])
         try:
-            co = run_case(ml, random.Random(seed), kname, route, side)
+            co = run_case(ml, random.Random(seed), kname, route, side, want_mut=mut)
         except Exception as e:   # noqa
             rep.count("case-error:" + type(e).__name__)
             rep.extra.setdefault("case_errors", []).append(f"{kname} {route_name(route)} seed={seed}: {type(e).__name__}: {e}"[:300])
@@ -1202,7 +1241,7 @@ def run(ctx, rep):
         meta.append((kname, route, side, seed))
         for sig, text in co.violations:
             found = True
-            rep.violate(sig, text, {"kname": kname, "route": list(route), "side": side, "seed": seed})
+            rep.violate(sig, text, {"kname": kname, "route": list(route), "side": side, "seed": seed, "mut": mut})
     if rep.extra.get("case_errors") and len(rep.extra["case_errors"]) > len(cases) // 10 + 3:
         vlib.broken_obligation(rep, "C06_cases", "too many cases could not be driven: " + "; ".join(rep.extra["case_errors"][:3]), found)
     bad = vlib.run_shards(ctx, rep, "c06", HEADER, "(check_case table)", cases, shard=60, case_type="case")
@@ -1235,5 +1274,9 @@ def replay(ctx, data):
     import random
     import molli as ml
     _quiet()
-    co = run_case(ml, random.Random(data["seed"]), data["kname"], tuple(data["route"]), data["side"], emit=False)
+    if "lone" in data:
+        rep = vlib.Report(ctx)
+        lone_oracle(ml, random.Random(1), rep)
+        return [v for v in rep.violations if v.replay.get("lone") == data["lone"] and v.replay.get("route") == data["route"]]
+    co = run_case(ml, random.Random(data["seed"]), data["kname"], tuple(data["route"]), data["side"], want_mut=data.get("mut"), emit=False)
     return [vlib.Violation(s, t) for s, t in co.violations]
